@@ -1,7 +1,7 @@
 /-
 Helper lemmas for the access-control model (`Model/Authn.lean`): the association lists,
 one step of a history, and the cache invariant (every cache entry is justified by an earlier
-request whose credentials concatenate to the key and were a live token at that time).
+request whose credentials `user:pw` are the key and were a live token at that time).
 -/
 import BytomModel.Model.Authn
 
@@ -79,13 +79,13 @@ theorem authenticate_verdict_remote (disable : Bool) (s : State) (r : Req)
 
 theorem cachedCheck_cases (s : State) (u p : Bytes) :
     ((cachedCheck s u p).2 = true ∧ check s.tokens u p = true ∧
-        (cachedCheck s u p).1 = { s with cache := mput s.cache (u ++ p) s.now }) ∨
+        (cachedCheck s u p).1 = { s with cache := mput s.cache (u ++ 58 :: p) s.now }) ∨
     ((cachedCheck s u p).2 = true ∧ (cachedCheck s u p).1 = s ∧
-        ∃ last, mget s.cache (u ++ p) = some last ∧ s.now ≤ last + tokenExpiry) ∨
+        ∃ last, mget s.cache (u ++ 58 :: p) = some last ∧ s.now ≤ last + tokenExpiry) ∨
     ((cachedCheck s u p).2 = false ∧ (cachedCheck s u p).1 = s ∧ check s.tokens u p = false ∧
-        ∀ last, mget s.cache (u ++ p) = some last → s.now > last + tokenExpiry) := by
+        ∀ last, mget s.cache (u ++ 58 :: p) = some last → s.now > last + tokenExpiry) := by
   simp only [cachedCheck]
-  cases hg : mget s.cache (u ++ p) with
+  cases hg : mget s.cache (u ++ 58 :: p) with
   | none =>
     cases hc : check s.tokens u p
     · right; right; simp
@@ -101,7 +101,7 @@ theorem cachedCheck_cases (s : State) (u p : Bytes) :
     credentials `(u, p)` concatenate to `k` and were, at that moment, a live issued token. -/
 def Justified (disable : Bool) (pre : List Op) (k : Bytes) (t : Nat) : Prop :=
   ∃ pre1 r1 rest u p, pre = pre1 ++ Op.request r1 :: rest ∧ parseBasic r1.auth = some (u, p) ∧
-    u ++ p = k ∧ check (final disable pre1).tokens u p = true ∧ (final disable pre1).now = t
+    u ++ 58 :: p = k ∧ check (final disable pre1).tokens u p = true ∧ (final disable pre1).now = t
 
 theorem Justified.mono {disable pre k t} (o : Op) (h : Justified disable pre k t) :
     Justified disable (pre ++ [o]) k t := by
@@ -141,7 +141,7 @@ theorem cacheInv_snoc (disable : Bool) (pre : List Op) (o : Op) (h : CacheInv di
         rcases cachedCheck_cases (final false pre) u p with ⟨_, hc, hs⟩ | ⟨_, hs, _⟩ | ⟨_, hs, _⟩
         · rw [hs] at hk
           simp only [get_put] at hk
-          by_cases hkey : u ++ p = k
+          by_cases hkey : u ++ 58 :: p = k
           · simp only [hkey, if_true, Option.some.injEq] at hk
             exact ⟨pre, r, [], u, p, rfl, hp, hkey, hc, hk⟩
           · simp only [hkey, if_false] at hk
@@ -184,5 +184,44 @@ theorem foldl_now_le (disable : Bool) (ops : List Op) (s : State) : s.now ≤ (o
   induction ops generalizing s with
   | nil => exact Nat.le_refl _
   | cons o os ih => exact Nat.le_trans (step_now_le disable s o) (ih _)
+
+/-- `BasicAuth` splits at the FIRST colon: the user part has none, and user ++ ':' ++ pw is
+    the payload again — so the cache key `user + ":" + pw` IS the decoded payload -/
+theorem splitColon_spec : ∀ (raw u p : Bytes), splitColon raw = some (u, p) → raw = u ++ 58 :: p
+  | [], u, p, h => by simp [splitColon] at h
+  | c :: cs, u, p, h => by
+    simp only [splitColon] at h
+    split at h
+    · rename_i hc
+      simp only [Option.some.injEq, Prod.mk.injEq] at h
+      obtain ⟨rfl, rfl⟩ := h
+      simp [hc]
+    · cases hs : splitColon cs with
+      | none => simp [hs] at h
+      | some up =>
+        obtain ⟨u', p'⟩ := up
+        simp only [hs, Option.some.injEq, Prod.mk.injEq] at h
+        obtain ⟨rfl, rfl⟩ := h
+        have := splitColon_spec cs u' p' hs
+        simp [this]
+
+/-- the cache key determines the credential pair -/
+theorem key_injective (a a' : Option Bytes) (u p u' p' : Bytes)
+    (h : parseBasic a = some (u, p)) (h' : parseBasic a' = some (u', p'))
+    (hk : u' ++ 58 :: p' = u ++ 58 :: p) : u' = u ∧ p' = p := by
+  cases a with
+  | none => simp [parseBasic] at h
+  | some raw =>
+    cases a' with
+    | none => simp [parseBasic] at h'
+    | some raw' =>
+      simp only [parseBasic] at h h'
+      have e := splitColon_spec raw u p h
+      have e' := splitColon_spec raw' u' p' h'
+      have : raw' = raw := by rw [e, e', hk]
+      subst this
+      rw [h] at h'
+      simp only [Option.some.injEq, Prod.mk.injEq] at h'
+      exact ⟨h'.1.symm, h'.2.symm⟩
 
 end BytomModel.Lemmas.Authn
